@@ -156,6 +156,16 @@ CHECKS = {
             "Trusted: z3 (decides the symbolic choices; values are concrete candidates because configparser rejects symbolic strings); real "
             "configparser on a private temporary directory; argparse and the FI database content are outside the claim.",
             "DESIGN.md section 3 C18", ""),
+    "C17": (True,
+            "Claimed for the part a solver reaches: on every symbolic path of per-class convert / serialize / parse harnesses (one symbolic "
+            "element text or leaf value, an unrelated workload in between, repetition) native fingerprints of the input objects (element tree, "
+            "model instance, source bytes) and of the library's class-level state (converter objects, class attributes, dispatch registries by "
+            "underlying function, module constants) must be unchanged and the repeated result equal. The one shared write - "
+            "DateTime.normalize_to_gmt re-registering an unconvert handler bound to the last converter - is discharged by a relational "
+            "obligation over a symbolic instant and offset (non-interference in self).",
+            "Trusted: z3; the fingerprint functions. NOT encoded: CPython-level thread interleavings (functools.singledispatch cache, warnings "
+            "registry) and 1..16-thread stress - purity on every path is the argument for schedule independence.",
+            "DESIGN.md section 3 C17", ""),
 }
 
 NOT_YET = {
